@@ -221,6 +221,18 @@ def layouts(prog, fn, depth=3, cap=400000, mode="socket"):
             errb.add(c.bb)
     results = set()
     steps = [0]
+    # buffers that grow inside a loop (`for b in name { x.push(*b) }`): loop header -> roots.  Found while enumerating (a block is
+    # re-entered with a longer buffer than at its first visit) and applied in the next round: at the header the buffer gets one "var"
+    # for whatever the iterations append, and appends to it inside the loop body are not counted again.
+    loop_growth = {}
+    found_growth = {}
+    loop_body = {}
+
+    def body_of_loop(h):
+        if h not in loop_body:
+            fwd = fn.reach_from(fn.succ[h])
+            loop_body[h] = set(b_ for b_ in fwd if h in fn.reach_from(fn.succ[b_])) | {h}
+        return loop_body[h]
 
     def names_of(l):
         s = fn.local_ty_s(l)
@@ -239,14 +251,21 @@ def layouts(prog, fn, depth=3, cap=400000, mode="socket"):
             if b in errb and b not in okb:
                 return
             if b in onpath:
-                if onpath[b] != tuple(len(s) for s in seqs):
+                first = onpath[b][1]
+                for r_, v_ in env.items():
+                    if isinstance(v_, tuple) and isinstance(first.get(r_), tuple) and len(v_) > len(first[r_]) and r_ not in loop_growth.get(b, ()):
+                        found_growth.setdefault(b, set()).add(r_)
+                if onpath[b][0] != tuple(len(s) for s in seqs):
                     for s in seqs:
                         results.add(_norm(s) + ("*",))
                 return
             onpath = dict(onpath)
-            onpath[b] = tuple(len(s) for s in seqs)
             env = dict(env)
             dsc = dict(dsc)
+            for r_ in loop_growth.get(b, ()):
+                if isinstance(env.get(r_), tuple):
+                    env[r_] = env[r_] + ("var",)
+            onpath[b] = (tuple(len(s) for s in seqs), dict((r_, v_) for r_, v_ in env.items() if isinstance(v_, tuple)))
             for st in fn.stmts(b):
                 if st["k"] != "assign":
                     continue
@@ -307,6 +326,9 @@ def layouts(prog, fn, depth=3, cap=400000, mode="socket"):
                 else:
                     alts = token(prog, fn, c, depth) if not c.term.get("inlined") else None
                     be = buffer_effect(fn, c) if not c.term.get("inlined") else None
+                if be is not None and be[0] is not None and be[1] != "new" and any(
+                        be[0] in rs and b in body_of_loop(h) for h, rs in loop_growth.items()):
+                    be = None                      # counted once at the loop header
                 if be is not None and be[0] is not None:
                     r_, how, toks = be
                     cur = env.get(r_)
@@ -360,7 +382,15 @@ def layouts(prog, fn, depth=3, cap=400000, mode="socket"):
             return
 
     try:
-        run(0, {}, {}, [()], {})
+        for _round in range(4):
+            results.clear()
+            found_growth.clear()
+            steps[0] = 0
+            run(0, {}, {}, [()], {})
+            if not found_growth:
+                break
+            for h, rs in found_growth.items():
+                loop_growth.setdefault(h, set()).update(rs)
     except Unrecognised:
         setattr(fn, attr, "?")
         return None
